@@ -18,6 +18,11 @@ CHECKS = {
    "Every value of the domain of each of the 18 registry newtypes and of the cipher-suite id type is formatted and converted, and every named constant is compared with the IANA value; the space is finite and enumerated completely, so within the trusted tables this is a decision, not a sample.",
    "Trusted: the hand-transcribed IANA tables (vcommon/src/reference/iana.rs). Constants found in the crate's sources without a table entry are reported in the evidence and not judged.",
    "DESIGN.md section 3 C17"),
+ "C12": (True, "exploration",
+   "complete finite-domain sweep: all 65536 ids x 4 lookup routes, 352 rows x 10 columns, all names and single-edit perturbations",
+   "The id space, the registry table and the single-edit neighbourhood of every registry name are finite and enumerated completely against an independent reading of scripts/tls-ciphersuites.txt, a committed snapshot of today's assignments and the IANA naming convention.",
+   "Trusted: scripts/tls-ciphersuites.txt as the reference registry, the committed snapshot, the token tables in vcommon/src/reference/ciphers.rs (names with unknown tokens are counted, not judged).",
+   "DESIGN.md section 3 C12"),
 }
 PENDING_REASON = "check not built yet in this round (work in progress; see DESIGN.md appendix C for the build order)"
 
